@@ -8,16 +8,25 @@
        LayeredFS.LZ10  (FE9, FE10;  names ending in ".cms" / ".cmp")  ->  LZ10CompressionFormat  (Model/LZ10.v)
        LayeredFS.LZ13  (FE13-FE15;  names ending in ".lz")            ->  LZ13CompressionFormat  (Model/LZ11.v)
 
-   and the round-trip law is discharged with the library round-trip theorems of C08 / C09
-   (Proofs/LZRoundTrip.v: compress10_round_trip, compress13_round_trip, compress13_empty_round_trip).
-   The domain is "a byte string shorter than 16 MiB" - the empty payload included, for both codecs
-   (LZ13 writes the extended size form for it: repair of F12).
+   After the repair of F21 both compressors reject a payload whose length their size field cannot store
+   (LZ10: 2^24 bytes and more; LZ13: 2^32 bytes and more) with Err(InputTooLarge).  So the round-trip law
+   needs NO size hypothesis any more: "compress returned Ok" is the size condition
+   ([real_codec_round_trip]: wfb b -> real_compress f b = Ok c -> real_decompress f c = Ok b), and therefore
+   read-after-write holds for EVERY byte payload of every successful write, compressed name or not, any game.
+   A payload that is too large makes the write fail with the state unchanged ([real_write_too_large]).
+   (The lemmas with a [lenN b < 2 ^ 24] hypothesis are kept under their old names for Proofs/LayeredFSTyped.v,
+   whose bounds come from the serializers of the typed layer.)
+
+   LZ13 between 2^31 and 2^32 bytes: [real_compress] is built on the list model of calculate_lz13_header, which is
+   proved equal to the machine-level model only below 2^31 bytes; the two may differ there in the three wrapper
+   length bytes and in nothing else, the decoder ignores those bytes, and Proofs/LZRoundTripExt.v proves the same
+   round trip for the machine-level model (compress13_mm_round_trip) - so the conclusion does not depend on them.
 
    [mc] is the arithmetic profile the compressor runs in, [md] the one of the decompressor; the theorems
    hold for every combination (a file written by a debug build is read back by a release build). *)
 From Coq Require Import List NArith Bool Arith Lia.
 From Mila Require Import Lib.Bytes Lib.Machine Model.Localize Model.LZCore Model.LZ10 Model.LZ11 Model.LZSpec Model.LZDecode
-  Proofs.LZ10Proofs Proofs.LZ11Proofs Proofs.LZRoundTrip Model.LayeredFS Proofs.LayeredFSStack.
+  Proofs.LZCoreProofs Proofs.LZ10Proofs Proofs.LZ11Proofs Proofs.LZRoundTrip Proofs.LZRoundTripExt Proofs.LZFormat Model.LayeredFS Proofs.LayeredFSStack.
 Import ListNotations.
 Local Open Scope N_scope.
 
@@ -28,36 +37,66 @@ Definition cformat_of (f : cfmt) : cformat := match f with LayeredFS.LZ10 => CF1
 Definition real_compress (mc : mode) (f : cfmt) (b : bytes) : outcome bytes := cf_compress (cformat_of f) mc b.
 Definition real_decompress (md : mode) (f : cfmt) (b : bytes) : outcome bytes := cf_decompress (cformat_of f) md b.
 
-(* the payloads the round trip is proved for: byte strings shorter than 16 MiB, whatever the format *)
-Definition codec_dom (f : cfmt) (b : bytes) : Prop := wfb b /\ lenN b < 2 ^ 24.
+(* the round-trip law of Proofs/LayeredFSStack.v (Section RoundTrip), for the real codecs: no size hypothesis *)
+Definition codec_dom (f : cfmt) (b : bytes) : Prop := wfb b.
 
-(* the round-trip law of Proofs/LayeredFSStack.v (Section RoundTrip), for the real codecs *)
 Theorem real_codec_round_trip mc md : forall f b c,
   codec_dom f b -> real_compress mc f b = Ok c -> real_decompress md f c = Ok b.
-Proof.
-  intros f b c [Hw Hn] Hc. destruct f; unfold real_compress, real_decompress, cformat_of, cf_compress, cf_decompress in *.
-  - injection Hc as <-. apply compress10_round_trip; assumption.
-  - destruct b as [|x b].
-    + destruct (compress13_empty_round_trip mc md) as (c' & Hc' & Hd). rewrite Hc in Hc'. injection Hc' as <-. exact Hd.
-    + destruct (compress13_round_trip mc (x :: b) ltac:(discriminate) Hw Hn) as (c' & Hc' & Hd).
-      rewrite Hc in Hc'. injection Hc' as <-. apply Hd.
-Qed.
+Proof. intros f b c Hw Hc. exact (cf_round_trip_ok (cformat_of f) mc md b c Hw Hc). Qed.
 
-(* compression of a payload of the domain never fails (so a write can only fail in the file system) *)
+(* the size limit of a format: what its size field can store *)
+Definition codec_limit (f : cfmt) : N := cf_limit (cformat_of f).
+
+(* compression fails exactly for payloads the size field cannot store (F21), and then with InputTooLarge *)
+Theorem real_compress_total mc f b :
+  (lenN b < codec_limit f -> exists c, real_compress mc f b = Ok c) /\
+  (codec_limit f <= lenN b -> real_compress mc f b = Err ETooLarge).
+Proof. exact (cf_compress_total (cformat_of f) mc b). Qed.
+
 Theorem real_compress_ok mc f b : lenN b < 2 ^ 24 -> exists c, real_compress mc f b = Ok c.
 Proof.
-  intros Hn. destruct f; unfold real_compress, cformat_of, cf_compress; [eauto|].
-  apply compress13_total. change (2 ^ 24) with 16777216 in Hn. change (2 ^ 31) with 2147483648. lia.
+  intros Hn. apply (proj1 (real_compress_total mc f b)). unfold codec_limit.
+  destruct f; cbn [cformat_of cf_limit]; [exact Hn|].
+  change (2 ^ 24) with 16777216 in Hn. change (2 ^ 32) with 4294967296. lia.
 Qed.
 
-(* ---- read after write with the real codecs ---- *)
+(* ---- read after write with the real codecs: every payload of every successful write ---- *)
+Theorem real_read_after_write_any mc md : forall S p b loc S',
+  fs_write (real_compress mc) S p b loc = (S', FOk tt) -> wfb b ->
+  fs_read (real_decompress md) S' p loc = FOk b.
+Proof.
+  intros S p b loc S' H Hw.
+  exact (read_after_write (real_compress mc) (real_decompress md) codec_dom (real_codec_round_trip mc md) S p b loc S' H Hw).
+Qed.
+
+(* (old name and shape, used by Proofs/LayeredFSTyped.v) *)
 Theorem real_read_after_write mc md : forall S p b loc S',
   fs_write (real_compress mc) S p b loc = (S', FOk tt) -> wfb b -> lenN b < 2 ^ 24 ->
   fs_read (real_decompress md) S' p loc = FOk b.
+Proof. intros S p b loc S' H Hw _. exact (real_read_after_write_any mc md S p b loc S' H Hw). Qed.
+
+(* a payload the configured format cannot store, written to a name with the compressed suffix: the write fails
+   with the compression error and NOTHING changes (no layer is touched, no directory is created) *)
+Theorem real_write_too_large mc : forall S p b loc,
+  is_compressed (c_comp (conf S)) p = true -> codec_limit (c_comp (conf S)) <= lenN b ->
+  fst (fs_write (real_compress mc) S p b loc) = S /\
+  snd (fs_write (real_compress mc) S p b loc) <> FOk tt /\
+  (forall sa, fs_addr S p loc = FOk sa ->
+     fs_write (real_compress mc) S p b loc = (S, FErr (ECompression ETooLarge))).
 Proof.
-  intros S p b loc S' H Hw Hn.
-  exact (read_after_write (real_compress mc) (real_decompress md) codec_dom (real_codec_round_trip mc md) S p b loc S' H (conj Hw Hn)).
+  intros S p b loc Hc Hl.
+  assert (En : encode_by_name (real_compress mc) S p b = FErr (ECompression ETooLarge)).
+  { unfold encode_by_name. rewrite Hc. rewrite (proj2 (real_compress_total mc (c_comp (conf S)) b) Hl). reflexivity. }
+  unfold fs_write. destruct (fs_addr S p loc) as [sa|e|k]; cbn [fst snd].
+  - rewrite En. cbn [fst snd]. split; [reflexivity|]. split; [discriminate|]. intros; reflexivity.
+  - split; [reflexivity|]. split; [discriminate|]. intros sa' H; discriminate.
+  - split; [reflexivity|]. split; [discriminate|]. intros sa' H; discriminate.
 Qed.
+
+(* ... while a name WITHOUT the compressed suffix is stored as it is, whatever its size: no codec runs *)
+Theorem real_encode_plain mc S p b : is_compressed (c_comp (conf S)) p = false ->
+  encode_by_name (real_compress mc) S p b = FOk b.
+Proof. intros H. unfold encode_by_name. rewrite H. reflexivity. Qed.
 
 (* what "a valid compressed stream" means for the two formats (Model/LZSpec.v: the strict parsers) *)
 Definition valid_stream (f : cfmt) (b c : bytes) : Prop :=
@@ -69,32 +108,51 @@ Definition valid_stream (f : cfmt) (b c : bytes) : Prop :=
       (b = [] -> s = [0x11; 0; 0; 0; 0; 0; 0; 0])
   end.
 
-Theorem real_compress_valid mc f b c : wfb b -> lenN b < 2 ^ 24 -> real_compress mc f b = Ok c -> valid_stream f b c.
+(* whatever the compressor returns Ok for is a valid stream of the payload (no size hypothesis) *)
+Theorem real_compress_valid_any mc f b c : wfb b -> real_compress mc f b = Ok c -> valid_stream f b c.
 Proof.
-  intros Hw Hn Hc. destruct f; unfold real_compress, cformat_of, cf_compress in Hc; cbn [valid_stream].
-  - injection Hc as <-. destruct (compress10_wellformed b Hw Hn) as (ts & Hs & _ & He). eauto.
-  - destruct b as [|x b].
-    + rewrite compress13_empty in Hc. injection Hc as <-.
+  intros Hw Hc. destruct f; unfold real_compress, cformat_of, cf_compress in Hc; cbn [valid_stream].
+  - destruct (compress10_o_ok_inv b c Hc) as [Hn ->].
+    destruct (compress10_wellformed b Hw Hn) as (ts & Hs & _ & He). eauto.
+  - destruct (compress13_o_ok_inv mc b c Hc) as [Hn Hc'].
+    destruct b as [|x b].
+    + rewrite compress13_empty in Hc'. injection Hc' as <-.
       exists [9; 0; 0], [0x11; 0; 0; 0; 0; 0; 0; 0]. repeat split; congruence.
-    + destruct (compress13_wellformed mc (x :: b) ltac:(discriminate) Hw Hn) as (h & s & ts & Hc' & Hh & Hs & _ & He).
-      rewrite Hc in Hc'. injection Hc' as ->. exists h, s. repeat split; [exact Hh | eauto | discriminate].
+    + destruct (compress13_round_trip_ext mc (x :: b) Hw Hn) as (a1 & a2 & a3 & s & Hc2 & Hs & _).
+      rewrite Hc' in Hc2. injection Hc2 as ->. exists [a1; a2; a3], s.
+      repeat split; [intros _; exists (tokens 4096 (x :: b)); split; [exact Hs | apply tokens_expand] | discriminate].
 Qed.
+
+Theorem real_compress_valid mc f b c : wfb b -> lenN b < 2 ^ 24 -> real_compress mc f b = Ok c -> valid_stream f b c.
+Proof. intros Hw _ Hc. exact (real_compress_valid_any mc f b c Hw Hc). Qed.
 
 (* the file stored by a successful write: in the top layer, at the addressed location; for a name with the
    game's compressed suffix it is a valid compressed stream of the payload, otherwise the payload itself *)
+Theorem real_write_stored_any mc : forall S p b loc S',
+  fs_write (real_compress mc) S p b loc = (S', FOk tt) -> wfb b ->
+  exists s pp c, fs_addr S p loc = FOk (s, (pp, false)) /\
+    l_get (last (layers S') []) pp = Some (File c) /\
+    if is_compressed (c_comp (conf S)) p then valid_stream (c_comp (conf S)) b c /\ lenN b < codec_limit (c_comp (conf S)) else c = b.
+Proof.
+  intros S p b loc S' H Hw.
+  destruct (write_ok_top (real_compress mc) S p b loc S' H) as (s & pp & c & A & En & _ & _ & G & _).
+  exists s, pp, c. split; [exact A|]. split; [exact G|].
+  unfold encode_by_name, lift_codec in En. destruct (is_compressed (c_comp (conf S)) p).
+  - destruct (real_compress mc (c_comp (conf S)) b) as [c'|e|k] eqn:E; try discriminate. injection En as ->.
+    split; [eapply real_compress_valid_any; eassumption|].
+    destruct (N.lt_ge_cases (lenN b) (codec_limit (c_comp (conf S)))) as [Hlt|Hge]; [exact Hlt|].
+    rewrite (proj2 (real_compress_total mc (c_comp (conf S)) b) Hge) in E. discriminate.
+  - injection En as ->. reflexivity.
+Qed.
+
 Theorem real_write_stored mc : forall S p b loc S',
   fs_write (real_compress mc) S p b loc = (S', FOk tt) -> wfb b -> lenN b < 2 ^ 24 ->
   exists s pp c, fs_addr S p loc = FOk (s, (pp, false)) /\
     l_get (last (layers S') []) pp = Some (File c) /\
     if is_compressed (c_comp (conf S)) p then valid_stream (c_comp (conf S)) b c else c = b.
 Proof.
-  intros S p b loc S' H Hw Hn.
-  destruct (write_ok_top (real_compress mc) S p b loc S' H) as (s & pp & c & A & En & _ & _ & G & _).
-  exists s, pp, c. split; [exact A|]. split; [exact G|].
-  unfold encode_by_name, lift_codec in En. destruct (is_compressed (c_comp (conf S)) p).
-  - destruct (real_compress mc (c_comp (conf S)) b) as [c'|e|k] eqn:E; try discriminate. injection En as ->.
-    eapply real_compress_valid; eassumption.
-  - injection En as ->. reflexivity.
+  intros S p b loc S' H Hw _. destruct (real_write_stored_any mc S p b loc S' H Hw) as (s & pp & c & A & G & V).
+  exists s, pp, c. split; [exact A|]. split; [exact G|]. destruct (is_compressed _ p); [exact (proj1 V) | exact V].
 Qed.
 
 (* the codec never makes a write of a payload below 16 MiB fail: encode_by_name is FOk *)
@@ -114,12 +172,12 @@ Theorem real_codec_of_game : forall ls l g S, fs_new ls l g = FOk S ->
   | FE9 | FE10 =>
     c_comp (conf S) = LayeredFS.LZ10 /\
     (forall p, is_compressed (c_comp (conf S)) p = orb (ends_with sfx_cms p) (ends_with sfx_cmp p)) /\
-    (forall mc b, real_compress mc (c_comp (conf S)) b = Ok (compress10 b)) /\
+    (forall mc b, real_compress mc (c_comp (conf S)) b = compress10_o b) /\
     (forall md c, real_decompress md (c_comp (conf S)) c = lz10_decompress md c)
   | FE13 | FE14 | FE15 =>
     c_comp (conf S) = LayeredFS.LZ13 /\
     (forall p, is_compressed (c_comp (conf S)) p = ends_with sfx_lz p) /\
-    (forall mc b, real_compress mc (c_comp (conf S)) b = compress13 mc b) /\
+    (forall mc b, real_compress mc (c_comp (conf S)) b = compress13_o mc b) /\
     (forall md c, real_decompress md (c_comp (conf S)) c = lz13_decompress md c)
   | FE11 | FE12 => False
   end.
@@ -134,6 +192,33 @@ Qed.
    reading the same path with the same localisation choice returns the payload, and for a name with the
    game's suffix (".cms"/".cmp" for FE9/FE10, ".lz" for FE13-FE15) the stored file is a valid LZ10 /
    0x13-wrapped LZ11 stream of the payload *)
+Theorem real_read_after_write_by_game_any mc md : forall ls l g S p b loc S',
+  fs_new ls l g = FOk S ->
+  fs_write (real_compress mc) S p b loc = (S', FOk tt) -> wfb b ->
+  fs_read (real_decompress md) S' p loc = FOk b /\
+  exists s pp c, fs_addr S p loc = FOk (s, (pp, false)) /\ l_get (last (layers S') []) pp = Some (File c) /\
+    match g with
+    | FE9 | FE10 => if orb (ends_with sfx_cms p) (ends_with sfx_cmp p)
+                    then valid_stream LayeredFS.LZ10 b c /\ lz10_decompress md c = Ok b else c = b
+    | _ => if ends_with sfx_lz p then valid_stream LayeredFS.LZ13 b c /\ lz13_decompress md c = Ok b else c = b
+    end.
+Proof.
+  intros ls l g S p b loc S' Hn H Hw. split; [eapply real_read_after_write_any; eassumption|].
+  destruct (write_ok_top (real_compress mc) S p b loc S' H) as (s & pp & c & A & En & _ & _ & G & _).
+  exists s, pp, c. split; [exact A|]. split; [exact G|].
+  pose proof (real_codec_of_game ls l g S Hn) as HG.
+  assert (V : if is_compressed (c_comp (conf S)) p
+              then valid_stream (c_comp (conf S)) b c /\ real_decompress md (c_comp (conf S)) c = Ok b else c = b).
+  { unfold encode_by_name, lift_codec in En. destruct (is_compressed (c_comp (conf S)) p).
+    - destruct (real_compress mc (c_comp (conf S)) b) as [c'|e|k] eqn:E; try discriminate. injection En as ->.
+      split; [eapply real_compress_valid_any; eassumption|].
+      eapply real_codec_round_trip; [exact Hw | exact E].
+    - injection En as ->. reflexivity. }
+  destruct g; try contradiction; destruct HG as (Hc & Hs & _ & Hd); rewrite Hs, Hc in V; rewrite ?Hc in Hd;
+    try rewrite <- (Hd md c); try exact V;
+    (destruct (ends_with sfx_lz p) || destruct (orb _ _)); try exact V; rewrite Hc; exact V.
+Qed.
+
 Theorem real_read_after_write_by_game mc md : forall ls l g S p b loc S',
   fs_new ls l g = FOk S ->
   fs_write (real_compress mc) S p b loc = (S', FOk tt) -> wfb b -> lenN b < 2 ^ 24 ->
@@ -144,21 +229,22 @@ Theorem real_read_after_write_by_game mc md : forall ls l g S p b loc S',
                     then valid_stream LayeredFS.LZ10 b c /\ lz10_decompress md c = Ok b else c = b
     | _ => if ends_with sfx_lz p then valid_stream LayeredFS.LZ13 b c /\ lz13_decompress md c = Ok b else c = b
     end.
+Proof. intros ls l g S p b loc S' Hn H Hw _. exact (real_read_after_write_by_game_any mc md ls l g S p b loc S' Hn H Hw). Qed.
+
+(* FE9 / FE10: a payload of 16 MiB or more written to a ".cms" / ".cmp" name fails and changes nothing (F21: before
+   the repair the write succeeded and the file read back as a few bytes) *)
+Theorem real_write_too_large_lz10 mc : forall ls l g S p b loc,
+  fs_new ls l g = FOk S -> (g = FE9 \/ g = FE10) ->
+  orb (ends_with sfx_cms p) (ends_with sfx_cmp p) = true -> 2 ^ 24 <= lenN b ->
+  fst (fs_write (real_compress mc) S p b loc) = S /\
+  snd (fs_write (real_compress mc) S p b loc) <> FOk tt /\
+  (forall sa, fs_addr S p loc = FOk sa -> fs_write (real_compress mc) S p b loc = (S, FErr (ECompression ETooLarge))).
 Proof.
-  intros ls l g S p b loc S' Hn H Hw Hl. split; [eapply real_read_after_write; eassumption|].
-  destruct (write_ok_top (real_compress mc) S p b loc S' H) as (s & pp & c & A & En & _ & _ & G & _).
-  exists s, pp, c. split; [exact A|]. split; [exact G|].
+  intros ls l g S p b loc Hn Hg Hp Hb.
   pose proof (real_codec_of_game ls l g S Hn) as HG.
-  assert (V : if is_compressed (c_comp (conf S)) p
-              then valid_stream (c_comp (conf S)) b c /\ real_decompress md (c_comp (conf S)) c = Ok b else c = b).
-  { unfold encode_by_name, lift_codec in En. destruct (is_compressed (c_comp (conf S)) p).
-    - destruct (real_compress mc (c_comp (conf S)) b) as [c'|e|k] eqn:E; try discriminate. injection En as ->.
-      split; [eapply real_compress_valid; eassumption|].
-      eapply real_codec_round_trip; [split; eassumption | exact E].
-    - injection En as ->. reflexivity. }
-  destruct g; try contradiction; destruct HG as (Hc & Hs & _ & Hd); rewrite Hs, Hc in V; rewrite ?Hc in Hd;
-    try rewrite <- (Hd md c); try exact V;
-    (destruct (ends_with sfx_lz p) || destruct (orb _ _)); try exact V; rewrite Hc; exact V.
+  assert (HC : c_comp (conf S) = LayeredFS.LZ10 /\ is_compressed (c_comp (conf S)) p = true).
+  { destruct Hg as [-> | ->]; destruct HG as (Hc & Hs & _); (split; [exact Hc | rewrite Hs; exact Hp]). }
+  destruct HC as [Hc Hi]. apply real_write_too_large; [exact Hi|]. rewrite Hc. exact Hb.
 Qed.
 
 (* ---- non-vacuity: FE10 writes "a.cmp" as an LZ10 stream, FE14 writes "a.lz" as a wrapped LZ11 stream ---- *)
